@@ -129,9 +129,28 @@ class Prop(fw.PropBase):
                                       'sample': 'c%d' % self.rng.randint(0, 2), 'paired': self.rng.random() < 0.5,
                                       'other': self.rng.choice(['x', 'y'])})
                     bams.append({'contigs': contigs, 'reads': reads})
+                bintag = self.rng.choice(['DS', 'DS', 'fe', 'reference_start', 'reference_end'])
+                feats = [f for f in ['reference_name', 'XX'] if self.rng.random() < 0.5]
+                self.rng.shuffle(feats)
+                if self.rng.random() < 0.5 or not feats:
+                    feats.insert(self.rng.randint(0, len(feats)), bintag)   # bin tag listed explicitly or auto-appended
                 calls.append({'bin': b, 'sliding': s, 'bams': bams, 'keep': self.rng.random() < 0.35,
-                              'divide': self.rng.random() < 0.5})
-            out.append({'calls': calls, 'extra_tag': self.rng.random() < 0.4})
+                              'divide': self.rng.random() < 0.5, 'bintag': bintag, 'features': feats})
+            out.append({'calls': calls, 'extra_tag': True})
+        # directed: every kind of bin tag (SAM tags DS / fe, read attributes reference_start / reference_end),
+        # auto-appended (not listed among the feature tags) next to attribute-named features
+        for bintag in ['DS', 'fe', 'reference_start', 'reference_end']:
+            for feats in (['reference_name'], ['XX', 'reference_name'], ['reference_name', bintag]):
+                b = self.rng.choice([2, 5, 10])
+                contigs = [['chr1', b * 6], ['chr2', b * 4 + 1]]
+                reads = [{'ds': self.rng.choice([0, b, b - 1, 2 * b, b * 4, 3]), 'contig': self.rng.randrange(2),
+                          'pos': self.rng.choice([0, b, b * 4 - 1, self.rng.randint(0, b * 4 - 1)]),
+                          'sample': 'c%d' % self.rng.randint(0, 2), 'paired': self.rng.random() < 0.5,
+                          'other': self.rng.choice(['x', 'y'])} for _ in range(8)]
+                out.append({'calls': [{'bin': b, 'sliding': self.rng.choice([None, max(1, b // 2)]),
+                                       'bams': [{'contigs': contigs, 'reads': reads}], 'keep': self.rng.random() < 0.5,
+                                       'divide': self.rng.random() < 0.5, 'bintag': bintag, 'features': list(feats)}],
+                            'extra_tag': True})
         return out
 
     # ---------------------------------------------------------------- K
@@ -198,21 +217,46 @@ class Prop(fw.PropBase):
 
     SAMPLES = ['c0', 'c1', 'c2']
 
+    @staticmethod
+    def coord(c, r):
+        """the value of the bin tag of read r in call c: DS / fe are SAM tags holding r['ds'];
+        reference_start / reference_end are read attributes (1 bp reads)"""
+        if c['bintag'] == 'reference_start':
+            return r['pos']
+        if c['bintag'] == 'reference_end':
+            return r['pos'] + 1
+        return r['ds']
+
+    @staticmethod
+    def keyof(c, bm, r):
+        """the non-bin feature values of the read, in the order of the requested feature tags"""
+        out = []
+        for f in c['features']:
+            if f == c['bintag']:
+                continue
+            out.append(bm['contigs'][r['contig']][0] if f == 'reference_name' else r['other'])
+        return out
+
     def table_model_input(self, h, c):
         # weights in half units: paired & mate mapped & fragments divided -> 1 half, else 2 halves
         s = c['sliding'] if c['sliding'] is not None else c['bin']
         reads = []
+        self._keys = []
         for bm in c['bams']:
             for r in bm['reads']:
                 w = 1 if (c['divide'] and r['paired']) else 2
-                key = self.SAMPLES.index(r['sample']) * 2 + (['x', 'y'].index(r['other']) if h['extra_tag'] else 0)
-                reads.append([r['ds'], w, key, bm['contigs'][r['contig']][1]])
+                k = [r['sample'], self.keyof(c, bm, r)]
+                if k not in self._keys:
+                    self._keys.append(k)
+                reads.append([self.coord(c, r), w, self._keys.index(k), bm['contigs'][r['contig']][1]])
+        c['_keys'] = self._keys
         return [1 if c['keep'] else 0, c['bin'], s, reads]
 
     def decode_table(self, h, c, mv):
         out = []
         for key, lo, hi, w in mv:
-            out.append([[self.SAMPLES[key // 2], ['x', 'y'][key % 2] if h['extra_tag'] else None, lo, hi], w])
+            sample, feats = c['_keys'][key]
+            out.append([[sample, feats, lo, hi], w])
         return out
 
     # ---------------------------------------------------------------- search
@@ -248,13 +292,14 @@ class Prop(fw.PropBase):
                     for r in bm['reads']:
                         w = 1 if (c['divide'] and r['paired']) else 2
                         reflen = bm['contigs'][r['contig']][1]
-                        for i in range((r['ds'] - c['bin']) // s + 1, r['ds'] // s + 1):
+                        dp = self.coord(c, r)
+                        for i in range((dp - c['bin']) // s + 1, dp // s + 1):
                             lo, hi = i * s, i * s + c['bin']
                             if not c['keep'] and (lo < 0 or hi > reflen):
                                 continue
-                            k = (r['sample'], r['other'] if h['extra_tag'] else None, lo, hi)
+                            k = (r['sample'], tuple(self.keyof(c, bm, r)), lo, hi)
                             exp[k] = exp.get(k, 0) + w
-                got = {tuple(k): v for k, v in impl['cells']}
+                got = {(k[0], tuple(k[1]), k[2], k[3]): v for k, v in impl['cells']}
                 if got != exp:
                     diff = sorted(set(got.items()) ^ set(exp.items()), key=str)[:4]
                     self.witnesses.append({'key': 'table:cells', 'what': 'call %d of %d (one process, one options namespace): count table differs from the '
